@@ -352,7 +352,7 @@ func checkOrderingParity(c *Ctx, rule string) {
 			if fn.Pkg == nil || fn.Pkg.Pkg.Path() != queuePath {
 				continue
 			}
-			if top := topLevel(fn); top != mf && len(p.CallSitesOf(top)) >= 4 {
+			if top := topLevel(fn); top != mf && p.SharedBy(top) >= 4 {
 				continue // shared maintenance helper (retention prune) — not part of this operation's result order
 			}
 			for _, ci := range allCalls(fn, func(ci ssa.CallInstruction) bool { return calleeIs(ci, "sort", "", "Slice") || calleeIs(ci, "sort", "", "SliceStable") }) {
@@ -388,7 +388,7 @@ func checkOrderingParity(c *Ctx, rule string) {
 			if s.Backend != "sqlite" || s.Verb() != "SELECT" || s.Table() != "queue_items" || s.Fn == nil || !reachS[s.Fn] || s.St.orderBy == "" {
 				continue
 			}
-			if s.Fn != sfn && len(p.CallSitesOf(s.Fn)) >= 4 {
+			if s.Fn != sfn && p.SharedBy(s.Fn) >= 4 {
 				continue
 			}
 			sqlStmt = s
@@ -420,7 +420,7 @@ func checkOrderingParity(c *Ctx, rule string) {
 		}
 		memCols := map[string]bool{}
 		for fn := range p.Reach(mf) {
-			if fn.Pkg == nil || fn.Pkg.Pkg.Path() != queuePath || (fn != mf && len(p.CallSitesOf(fn)) >= 4) {
+			if fn.Pkg == nil || fn.Pkg.Pkg.Path() != queuePath || (fn != mf && p.SharedBy(fn) >= 4) {
 				continue
 			}
 			for _, b := range fn.Blocks {
